@@ -25,7 +25,7 @@ pub fn families() -> Vec<Family> {
             "AsyncFleet vs. one scripted node: outcome sequences (refused / accepted-then-closed / closed-while-idle / silent / malformed / app-error / success) then a healthy phase",
             c19_async_fleet_seq,
         )
-        .runs(4_000, 150_000)
+        .runs(120_000, 7_200_000)
         .tokio(),
         Family::new(
             "c19_async_fleet_broadcast",
@@ -33,7 +33,7 @@ pub fn families() -> Vec<Family> {
             "AsyncFleet broadcast_json over tag subsets of up to 4 healthy or flaky nodes",
             c19_async_fleet_broadcast,
         )
-        .runs(1_500, 40_000)
+        .runs(100_000, 6_000_000)
         .tokio(),
     ]
 }
@@ -214,6 +214,7 @@ fn c19_async_fleet_seq(case: &Case) {
     let silent_mutes_conn = simkernel::choose(2) == 0;
     case.sample(json!({"max_attempts": max_attempts, "outcomes": seq.iter().map(|o| format!("{o:?}")).collect::<Vec<_>>(),
         "timeout_ms": timeout_ms, "retry_delay_ms": delay_ms, "scripted_calls": ncalls, "silent_connection_stays_dead": silent_mutes_conn}));
+    case.cover("outcome_sequence(of 22k for max_attempts<=3)", format!("{max_attempts}/{}", seq.iter().map(|o| (*o as u8 + b'0') as char).collect::<String>()));
     let case = case.clone();
     aio::run(&case.clone(), 3_600, async move {
         let listener = TcpListener::bind("127.0.0.1:0").await.unwrap();
